@@ -106,6 +106,28 @@ fn sum_case(c: &SumCase, rec: &mut Rec) {
         let err = (tot - (ig + res)).abs();
         rec.check("sum_rule", &name, err / (1e-12 * sc).max(1e-300), sc > 0.0, || format!("{name}: total {tot:e} != ideal {ig:e} + residual {res:e}"));
     }
+    // the third-order ideal-gas getters are the temperature derivatives of the second-order ones (Richardson difference
+    // at constant V, N): dc_v/dT and d2S/dT2, ideal-gas part and total
+    {
+        let at = |h: f64| State::new_nvt(&c.eos, Temperature::from_reduced(c.t + h), s.volume, &m).unwrap();
+        let h = 1e-3 * c.t;
+        for contrib in [Contributions::IdealGas, Contributions::Total] {
+            let cname = if matches!(contrib, Contributions::IdealGas) { "ideal" } else { "total" };
+            let (r, e) = crate::engine::rich(&|h| at(h).molar_isochoric_heat_capacity(contrib).to_reduced(), h);
+            let ana = s.dc_v_dt(contrib).to_reduced();
+            if r.is_finite() && ana.is_finite() {
+                let sc = ana.abs().max(r.abs()).max(1.0 / c.t);
+                rec.check("third_order_temperature_derivative", &format!("dc_v_dt|{cname}"), (ana - r).abs() / (50.0 * e + 1e-6 * sc), true, || format!("dc_v_dt({cname}) = {ana:e}, difference of c_v(T) = {r:e} (estimate {e:e})"));
+            }
+            let (r, e) = crate::engine::rich(&|h| at(h).ds_dt(contrib).to_reduced(), h);
+            let ana = s.d2s_dt2(contrib).to_reduced();
+            if r.is_finite() && ana.is_finite() {
+                let n = m.sum().to_reduced();
+                let sc = ana.abs().max(r.abs()).max(n / (c.t * c.t));
+                rec.check("third_order_temperature_derivative", &format!("d2s_dt2|{cname}"), (ana - r).abs() / (50.0 * e + 1e-6 * sc), true, || format!("d2s_dt2({cname}) = {ana:e}, difference of ds_dt(T) = {r:e} (estimate {e:e})"));
+            }
+        }
+    }
     // ideal-gas pressure is rho*R*T in SI units
     let rho_si = s.density.convert_into(MOL / METER.powi::<typenum::P3>());
     let p_si = s.pressure(Contributions::IdealGas).convert_into(PASCAL);
